@@ -32,6 +32,7 @@ type Obligation struct {
 	Output  string
 	IsCover bool // cover query: must be satisfiable
 	Extra   []string // obligation-local declarations and instances
+	Inst      []string // heuristic instances of quantified assumptions (left out of the lean portfolio query)
 }
 
 type HeapInfo struct {
